@@ -11,5 +11,5 @@ Extraction "region_model.ml"
   group_assign groups_of list_region_ids
   invalidate update_leader rpc_ctx on_send_fail re_resolve switch_work set_work invalidate_r store_epoch on_bucket_version_not_match update_buckets locate_bucket_full bk_ver on_epoch_not_match gc
   upd_entry expire_r set_flags get_by_verid entry_at
-  merge_all ranges_after_key regions_have_gap new_region r_verid store_reply codec_pd new_region_peers cinv_parts cinvb truth_wfb
+  merge_all ranges_after_key regions_have_gap new_region r_verid store_reply codec_pd new_region_peers cinv_parts cinvb truth_wfb hist_parts hist_okb
   Z.of_N (* only so that the type z exists for ocaml/common/common.ml *).
